@@ -6,20 +6,27 @@ HARNESS = "c05"
 DRIVER = "c05"
 PROPS_MODULE = "OxyModel.Props.C18"
 AUDIT = "OxyModel/Audit/C18.lean"
-THEOREMS = ["C18.C18_env_values", "C18.C18_window", "C18.C18_window_fused", "C18.C18_eval_standard", "C18.C18_eval_standard_general", "C18.C18_trips_iff", "C18.C18_trips_iff_fused", "C18.C18_trip_clears_metrics", "C18.C18_effects_once"]
+THEOREMS = ["C18.C18_env_values", "C18.C18_window", "C18.C18_window_fused", "C18.C18_eval_standard", "C18.C18_eval_standard_general", "C18.C18_trips_iff", "C18.C18_trips_iff_fused", "C18.C18_trip_clears_metrics", "C18.C18_effects_once",
+            "C18.C18_hist_counts", "C18.C18_hist_class", "C18.C18_quantile_rank", "C18.C18_quantile_count", "C18.C18_quantile_rank_rolling",
+            "C18.C18_rolling_window", "C18.C18_rolling_recent", "C18.C18_rolling_window_60s_counterexample", "C18.C18_latency_oracle_refines"]
 RACE = True
 JOBS = 8
 RULE = ("scenario = a condition generated from the grammar (&&/|| nesting to depth 3, six comparisons, NetworkErrorRatio / ResponseCodeRatio / "
         "LatencyAtQuantileMS, int and float literals in several spellings, redundant parentheses), printed in Go syntax for the real predicate "
         "parser and in prefix form for the model; 8% ill-typed and 5% otherwise rejected conditions (New must fail on both sides); response "
         "code / latency sequences with clock advances, check periods 0..10 s, completions overlapping a trip, 1-4 trip/recover cycles, "
-        "OnTripped/OnStandby executions counted after quiescence; 15% latency cycles (slow responses over >= 3 ten-second histogram slots, trip, full cycle with fast responses, evaluations inside the 60 s rolling window); non-trivial = evaluations with both outcomes in one scenario. "
+        "OnTripped/OnStandby executions counted after quiescence; 12% histogram walks (conditions over LatencyAtQuantileMS with the quantile literals 0, 1, 33.3, 50, 90, 99, 99.9, 100, 100.5, 250; latencies from 0 to beyond 2^32 us, which the histogram drops; tens of completions inside one 10 s histogram period; gaps of 10 s - 1 ns .. 700 s and > 71 min between completions; trips in between); 15% latency cycles (slow responses over >= 3 ten-second histogram slots, trip, full cycle with fast responses, evaluations inside the 60 s rolling window); non-trivial = evaluations with both outcomes in one scenario. "
         "15% near-miss scenarios: the ratio reaches p/q exactly while the literal lies 1e-11..1e-5 (relative) beside it, all six comparisons, "
         "alone and inside and/or nests with a guard (histogram ratio-near-miss). Float: ratios are exact integer pairs; literals are decimals that either equal an attainable ratio or stay >= 1e-11 relative away from it (counts < 10^4), so a ratio either equals the literal "
         "(float division and literal round identically: ratio-tie) or differs by > 2^-40 relative (ratio-too-close must be 0)")
-ASSUMPTIONS = ["LatencyAtQuantileMS is an oracle for the model: the value is read from a shadow memmetrics.RTMetrics fed the same (code, latency) at the "
-               "same frozen instants and reset at every observed trip; the harness re-checks the value on the op line on every run. The monitor "
-               "does not trust it: from the raw (time, latency) log it re-derives the latencies recorded since the last trip that are still in the "
+ASSUMPTIONS = ["LatencyAtQuantileMS is computed by the model itself (Model/Hist.lean: hdrhistogram RecordValues / Merge / ValueAtPercentile, the rolling "
+               "histogram of memmetrics, recordLatency in microseconds, the result in whole milliseconds; C18_hist_counts, C18_hist_class, "
+               "C18_quantile_rank(_rolling), C18_rolling_window, C18_rolling_recent, C18_latency_oracle_refines) except for ONE float step, "
+               "countAtPercentile = int64(q/100*float64(total)+0.5): the driver computes it in IEEE doubles (same operations, same order), the "
+               "theorems use the exact rational floor(q*total/100 + 1/2) (C18_quantile_count); that the two agree is assumed, not modelled. The q= "
+               "values on the op lines are the implementation's (a shadow memmetrics.RTMetrics fed the same (code, latency) at the same frozen "
+               "instants and reset at every observed trip; the harness re-checks them on every run): the driver decides with its own values and "
+               "prints hist-mismatch when they differ from q= (a divergence). The monitor trusts neither: from the raw (time, latency) log it re-derives the latencies recorded since the last trip that are still in the "
                "rolling histogram (6 sub-histograms, rolled at the first record >= 10 s after the previous roll), the order statistic "
                "int(q/100*n+0.5) and its hdrhistogram bucket (2 significant figures), judges trip decisions with that value and flags "
                "stale-latency when the value a decision used lies outside the bucket",
@@ -38,7 +45,7 @@ MANIFEST = {
              "Go-style evaluator = comparisons over Q and Z with and/or), C18_env_values, C18_trip_clears_metrics, C18_effects_once (#onTripped = "
              "#entries into tripped = #tripping completions, #onStandby = #entries into standby, any number of cycles); tied to cbreaker.go, "
              "predicates.go, roundtrip.go by a differential run with generated conditions through the real parser."),
-    "note": ("Trusted: Lean kernel; standard axioms; model validated on generated scenarios only; latency quantile is an oracle (shadow RTMetrics); "
+    "note": ("Trusted: Lean kernel; standard axioms; model validated on generated scenarios only; latency histogram (hdrhistogram + rolling window) modelled and proved (C18_hist_*, C18_quantile_*, C18_rolling_*, C18_latency_oracle_refines) except the float rounding of the percentile count; "
              "C18_window (metrics = responses since the last trip in the last ten 1 s slots) builds on the C17 counter invariant; float ratios "
              "compared exactly; atomic steps (C09)."),
     "technique": "Lean 4 proof (evaluator vs denotational semantics; state-machine invariants) + differential correspondence with cbreaker.CircuitBreaker",
